@@ -48,8 +48,13 @@ pub struct EngInner {
     proposer: Mutex<Option<sync::watch::Receiver<Option<v2::ProposalJustification>>>>,
     pub crash: Mutex<CrashPlan>,
     pub next_payload: Mutex<u64>,
-    /// when false, `queue_next_block` stores the block but the persisted watch is not advanced
+    /// when false the storage is slow: `queue_next_block` accepts the block but nothing becomes durable until
+    /// `flush_pending` (a crash in between loses the block)
     pub auto_persist: Mutex<bool>,
+    /// blocks handed to the storage but not yet durable
+    pub pending: Mutex<Vec<validator::Block>>,
+    /// incarnation of the node process: handles created for an earlier incarnation's `EngineManager` are inert
+    pub generation: std::sync::atomic::AtomicU64,
 }
 
 impl std::fmt::Debug for EngInner {
@@ -58,8 +63,9 @@ impl std::fmt::Debug for EngInner {
     }
 }
 
+/// Handle to the harness storage; the second field is the process incarnation it was created for.
 #[derive(Debug, Clone)]
-pub struct SimEngine(pub Arc<EngInner>);
+pub struct SimEngine(pub Arc<EngInner>, pub u64);
 
 /// payload ids that the execution layer rejects
 pub fn payload_ok(id: u64) -> bool {
@@ -80,7 +86,28 @@ impl SimEngine {
             crash: Mutex::new(CrashPlan::default()),
             next_payload: Mutex::new(100),
             auto_persist: Mutex::new(true),
-        }))
+            pending: Mutex::new(vec![]),
+            generation: std::sync::atomic::AtomicU64::new(0),
+        }), 0)
+    }
+
+    fn stale(&self) -> bool {
+        self.1 != self.0.generation.load(std::sync::atomic::Ordering::SeqCst)
+    }
+
+    /// The slow storage finally writes what it was given.
+    pub fn flush_pending(&self) {
+        let blocks: Vec<validator::Block> = std::mem::take(&mut *self.0.pending.lock().unwrap());
+        for b in blocks {
+            self.persist_block(b);
+        }
+    }
+
+    /// The node process dies: what was not durable is gone; returns the handle for the next incarnation.
+    pub fn next_incarnation(&self) -> SimEngine {
+        self.0.pending.lock().unwrap().clear();
+        let g = self.0.generation.fetch_add(1, std::sync::atomic::Ordering::SeqCst) + 1;
+        SimEngine(self.0.clone(), g)
     }
 
     /// Moves everything the replica has emitted so far (outbound messages, proposer notification) into the log.
@@ -143,16 +170,22 @@ impl EngineInterface for SimEngine {
         self.0.blocks.lock().unwrap().get(&number.0).cloned().ok_or_else(|| anyhow::format_err!("no block").into())
     }
     async fn queue_next_block(&self, _ctx: &ctx::Ctx, block: validator::Block) -> ctx::Result<()> {
+        if self.stale() {
+            // a background task of a dead incarnation
+            return Err(anyhow::format_err!("stale incarnation").into());
+        }
         self.drain();
         self.0.log.lock().unwrap().push(Ev::Queue(block.clone()));
         let n = block.number().0;
-        self.0.blocks.lock().unwrap().insert(n, block.clone());
         if *self.0.auto_persist.lock().unwrap() {
+            self.0.blocks.lock().unwrap().insert(n, block.clone());
             self.0.persisted.send_modify(|p| {
                 if p.next().0 == n {
                     p.last = Some(Last::from(&block));
                 }
             });
+        } else {
+            self.0.pending.lock().unwrap().push(block);
         }
         Ok(())
     }
@@ -270,6 +303,21 @@ impl Rig {
         let mut this = Self { me, engine, manager, clock, root, replica: None, sent_history: vec![], dead: false };
         this.start(w).await;
         this
+    }
+
+    /// The node process died and starts again: everything in memory is lost (the `EngineManager` with its queue of
+    /// blocks not yet persisted, the replica), the durable storage survives.
+    pub async fn restart_full(&mut self, w: &World) {
+        self.engine = self.engine.next_incarnation();
+        let (manager, runner) = EngineManager::new(&self.root, Box::new(self.engine.clone()), time::Duration::seconds(3600))
+            .await
+            .expect("EngineManager::new");
+        let rctx = self.root.with_deadline(time::Deadline::Infinite);
+        tokio::spawn(async move {
+            let _ = runner.run(&rctx).await;
+        });
+        self.manager = manager;
+        self.start(w).await;
     }
 
     /// (Re)builds the state machine from whatever the engine holds durably.
